@@ -100,6 +100,12 @@ TARGETS += [
          selfattrs=[("version", "bytes"), ("inputs", "list:txin"), ("outputs", "list:txout"), ("witnesses", "list:witness"), ("locktime", "bytes"),
                     ("has_segwit", "bool")],
          ret="int", tiefile="tx_ids", fallback="fun v i o w l hs => of_option (Tx.get_size (Tx.Build_tx v i o l hs w))"),
+    dict(coq="src_taproot_digest", file="bitcoinutils/transactions.py", qual="Transaction.get_transaction_taproot_digest", sha=True,
+         params=[("txin_index", "int"), ("script_pubkeys", "list:script"), ("amounts", "list:int"), ("ext_flag", "int"), ("script", "script"),
+                 ("leaf_ver", "int"), ("sighash", "int")],
+         selfattrs=[("version", "bytes"), ("inputs", "list:txin"), ("outputs", "list:txout"), ("locktime", "bytes")],
+         ret="bytes", tiefile="taproot_digest",
+         fallback="fun sha256 i spks ams ext sc lv ht v ins outs l => if i <? 0 then Raise else of_option (Sighash.taproot_digest sha256 (Tx.Build_tx v ins outs l false []) (Z.to_nat i) spks ams ext sc ht)"),
     dict(coq="src_segwit_digest", file="bitcoinutils/transactions.py", qual="Transaction.get_transaction_segwit_digest", sha=True,
          params=[("txin_index", "int"), ("script", "script"), ("amount", "int"), ("sighash", "int")],
          selfattrs=[("version", "bytes"), ("inputs", "list:txin"), ("outputs", "list:txout"), ("locktime", "bytes")],
@@ -112,6 +118,7 @@ COQTY = {"int": "Z", "bytes": "bytes", "hexbytes": "bytes", "bool": "bool", "int
          "str": "string",          # a str used as a tag: str.encode() of an ASCII tag is Sighash.str_bytes
          "script": "(list tok)",
          "hexint": "Z",
+         "list:int": "(list Z)", "list:script": "(list (list tok))",
          "list:hexbytes": "(list bytes)", "list:txin": "(list Tx.txin)", "list:txout": "(list Tx.txout)", "list:witness": "(list (list bytes))"}            # an int returned as f"{x:064x}": the integer that is printed   # a Script object: its .to_bytes() is the model's Script.to_bytes (tied by C02)
 STRUCT = {"<B": 1, "<H": 2, "<I": 4, "<L": 4, "<Q": 8, "B": 1}
 STRUCT_SIGNED = {"<i": 4, "<l": 4, "<q": 8}
@@ -204,7 +211,7 @@ class Tr:
             if e.id in self.consts:
                 return [], self.consts[e.id][0], self.consts[e.id][1]
             raise Unsupported("name %s" % e.id)
-        if isinstance(e, ast.Attribute) and isinstance(e.value, ast.Name) and e.value.id == "self":
+        if isinstance(e, ast.Attribute) and isinstance(e.value, ast.Name) and (e.value.id == "self" or e.value.id in getattr(self, "aliases", ())):
             key = "self." + e.attr
             if key in self.env:
                 return [], self.env[key][0], self.env[key][1]
@@ -421,6 +428,7 @@ class Tr:
         if isinstance(f, ast.Name) and f.id == "len" and len(e.args) == 1:
             p, a, ta = self.expr(e.args[0])
             if ta != "bytes" and not ta.startswith("list:"): raise Unsupported("len of %s" % ta)
+            if a in getattr(self, "hexstr_idents", set()): raise Unsupported("len of a hex string outside int(len(x) / 2)")
             return p, "(Z.of_nat (length %s))" % a, "int"
         if isinstance(f, ast.Name) and f.id == "isinstance" and len(e.args) == 2:
             p, a, ta = self.expr(e.args[0])
@@ -441,7 +449,7 @@ class Tr:
         # hex transport: h_to_b(x) on a hexbytes value and b_to_h(x) on bytes are the identity on the byte string
         if isinstance(f, ast.Name) and f.id in ("h_to_b", "b_to_h") and len(e.args) == 1:
             p, a, ta = self.expr(e.args[0])
-            if ta != "bytes": raise Unsupported("%s of %s" % (f.id, ta))
+            if ta not in ("bytes", "hexstr"): raise Unsupported("%s of %s" % (f.id, ta))
             return p, a, "bytes"
         # s.encode() / s.encode("utf-8")
         if isinstance(f, ast.Attribute) and f.attr == "encode" and len(e.args) <= 1 and not e.keywords:
@@ -485,6 +493,20 @@ class Tr:
             args = " ".join(("(%s %s)" % (proj, ident)) if proj else ident for _, _, proj in OBJ[ty]["attrs"])
             t = self.fresh()
             return [("res", t, "%s %s" % (coq, args))], t, rty
+        # script.to_hex(): the hex string of the model's Script.to_bytes (kept as the bytes; its len() is twice as long)
+        if isinstance(f, ast.Attribute) and f.attr == "to_hex" and not e.args and not e.keywords:
+            p, a, ta = self.expr(f.value)
+            if ta != "script": raise Unsupported("to_hex() of %s" % ta)
+            t = self.fresh()
+            self.hexstrs = getattr(self, "hexstrs", set()) | {t}
+            return p + [("opt", t, "Script.to_bytes %s" % a)], t, "hexstr"
+        # int(len(<hex string>) / 2): the number of bytes
+        if (isinstance(f, ast.Name) and f.id == "int" and len(e.args) == 1 and isinstance(e.args[0], ast.BinOp) and isinstance(e.args[0].op, ast.Div)
+                and isinstance(e.args[0].right, ast.Constant) and e.args[0].right.value == 2 and isinstance(e.args[0].left, ast.Call)
+                and isinstance(e.args[0].left.func, ast.Name) and e.args[0].left.func.id == "len" and len(e.args[0].left.args) == 1):
+            p, a, ta = self.expr(e.args[0].left.args[0])
+            if ta != "bytes" or a not in getattr(self, "hexstr_idents", set()): raise Unsupported("int(len(x) / 2) on something that is not a hex string")
+            return p, "(Z.of_nat (length %s))" % a, "int"
         # script.to_bytes(): the model's Script.to_bytes
         if isinstance(f, ast.Attribute) and f.attr == "to_bytes" and not e.args and not e.keywords:
             p, a, ta = self.expr(f.value)
@@ -611,6 +633,13 @@ class Tr:
             pre, c, tc = self.expr(s.test)
             return self.wrap(pre, "if %s then\n%s\nelse Raise" % (self.truthy(c, tc), self.stmts(rest)))
         if isinstance(s, (ast.Assign, ast.AnnAssign, ast.AugAssign)):
+            if (isinstance(s, ast.Assign) and len(s.targets) == 1 and isinstance(s.targets[0], ast.Name) and isinstance(s.value, ast.Call)
+                    and isinstance(s.value.func, ast.Attribute) and s.value.func.attr == "copy" and isinstance(s.value.func.value, ast.Name)
+                    and s.value.func.value.id == self.t["qual"].split(".")[0] and len(s.value.args) == 1
+                    and isinstance(s.value.args[0], ast.Name) and s.value.args[0].id == "self" and not self.t.get("init")):
+                # x = Class.copy(self), then only read: the copy has the same field values (separation of copies is C13's subject)
+                self.aliases = getattr(self, "aliases", set()) | {s.targets[0].id}
+                return self.stmts(rest)
             if isinstance(s, ast.Assign) and len(s.targets) == 1 and isinstance(s.targets[0], ast.Tuple):
                 return self.tuple_assign(s, rest)
             if isinstance(s, ast.Assign):
@@ -628,10 +657,14 @@ class Tr:
             else:
                 raise Unsupported("assignment target")
             pre, a, ta = self.expr(val)
+            was_hex = (ta == "hexstr")
+            if was_hex: ta = "bytes"
             if ta not in ("int", "bytes", "bool", "hexint") and ta not in OBJ:
                 raise Unsupported("assignment of %s" % ta)
             saved = dict(self.env)
             ident = self.bind(key, a, ta)
+            if was_hex:
+                self.hexstr_idents = getattr(self, "hexstr_idents", set()) | {ident}
             body = self.stmts(rest)
             self.env = saved
             return self.wrap(pre, "let %s := %s in\n%s" % (ident, a, body))
